@@ -29,6 +29,8 @@ def gen_quant(rng, allow_bad=False):
     if m < 0.8:
         return '?'
     n = rng.choice([0, 1, 2, 3])
+    if rng.random() < 0.06:
+        n = rng.choice([17, 20, 32])          # counts well above any small unrolling limit
     k = rng.random()
     if k < 0.35:
         return ('e', n)
